@@ -2,7 +2,7 @@
 From Coq Require Import ZArith List Bool String.
 From VD Require Import Base.Bytes Base.Text Base.Sexp Base.PixFmt Base.Struct.
 From VD Require Import Model.ClientMsgs Model.Keys Model.Pointer Model.ClientOps Spec.C2S.
-From VD Require Import Model.Server Extract.DispatchRfb Extract.DispatchCmd.
+From VD Require Import Model.Server Extract.DispatchRfb Extract.DispatchCmd Extract.DispatchProxy.
 Import ListNotations.
 Open Scope Z_scope.
 
@@ -91,4 +91,5 @@ Definition dispatch (name : list Z) (a : sexp) : sexp :=
   else if name_is name "compile" then d_compile a
   else if name_is name "shlex" then d_shlex a
   else if name_is name "quote" then d_quote a
+  else if name_is name "proxy_run" then d_proxy_run a
   else sErr.
